@@ -110,4 +110,58 @@ example : ∃ sc, circuitBatch busMixed = .ok sc ∧
         fun c _ _ => match c with | .terminalSum _ => False | _ => True⟩ sc (fun _ => 0) :=
   unbalanced_bus_rejected _ busMixed ⟨by decide, by decide⟩ _ (fun h => h)
 
+/-! The shapes of the seeded regression C01-b (harness targets `unizk/*/fib-c1q8`, `batchzk/*/mixed-c1q8`,
+`…-c0q3`, `…-c3q1`): the hiding PCS with *asymmetric* grinding bit counts. -/
+def zkAsym (c q : Nat) : Shape :=
+  { zk := true, D := 4, nrc := 2,
+    insts := [⟨2, 3, 0, true, true, 2, 0, 4⟩, ⟨3, 0, 0, false, true, 2, 0, 3⟩],
+    friRounds := 4, finalPolyLen := 1, queries := 2, commitPowBits := c, queryPowBits := q }
+
+example : WFBatch (zkAsym 1 8) := ⟨by decide, by decide⟩
+example : WFUni (zkAsym 1 8) := fun h => by cases h
+
+/-- The `pow` events of the hiding-PCS circuit on asymmetric bit counts: four commit-phase witnesses against
+1 bit and the query-phase witness against 8 bits; with no commit-phase grinding only the query-phase event
+(3 bits) remains — it does not disappear; with 3 + 1 bits the query-phase witness is judged against 1 bit. -/
+theorem zk_asym_pow_events :
+    ((circuitBatch (zkAsym 1 8)).toOption.map fun sc => sc.events.filterMap fun e =>
+        match e with | .pow b w => some (b, w) | _ => none)
+      = some [(1, Name.commitPow 0), (1, Name.commitPow 1), (1, Name.commitPow 2), (1, Name.commitPow 3),
+              (8, Name.queryPow)]
+    ∧ ((circuitBatch (zkAsym 0 3)).toOption.map fun sc => sc.events.filterMap fun e =>
+        match e with | .pow b w => some (b, w) | _ => none) = some [(3, Name.queryPow)]
+    ∧ ((circuitUni (zkAsym 3 1)).toOption.map fun sc => sc.events.filterMap fun e =>
+        match e with | .pow b w => some (b, w) | _ => none)
+      = some [(3, Name.commitPow 0), (3, Name.commitPow 1), (3, Name.commitPow 2), (3, Name.commitPow 3),
+              (1, Name.queryPow)] := by
+  decide
+
+/-- non-vacuity of `under_ground_query_rejected`: a semantics in which a witness passes at most one bit (a prover
+that ground for 1 bit) — the 8-bit query-phase judgement fails, the 1-bit commit-phase ones pass -/
+example : ∃ sc, circuitBatch (zkAsym 1 8) = .ok sc ∧
+    ¬ accepts (V := Nat) ⟨fun _ _ _ => 0, fun _ _ bits _ => bits ≤ 1, fun _ _ _ => True⟩ sc (fun _ => 0) :=
+  under_ground_query_rejected _ (zkAsym 1 8) ⟨by decide, by decide⟩ _ (by decide)
+    (fun _ _ h => absurd (show (8 : Nat) ≤ 1 from h) (by decide))
+
+/-- … and the same proof data is accepted when the query-phase witness is only asked for `commitPowBits` bits
+(the script of the seeded regression): the theorem above is not vacuous about *which* count is used. -/
+example : accepts (V := Nat) ⟨fun _ _ _ => 0, fun _ _ bits _ => bits ≤ 1, fun _ _ _ => True⟩
+    { events := (nativeBatch (zkAsym 1 8)).events.map fun e =>
+        match e with | .pow _ Name.queryPow => Ev.pow 1 Name.queryPow | e => e,
+      checks := [] } (fun _ => 0) := by
+  refine ⟨?_, by simp⟩
+  intro k bits w hk
+  have hmem := List.mem_of_getElem? hk
+  simp only [List.mem_map] at hmem
+  obtain ⟨e, he, heq⟩ := hmem
+  have key : bits ≤ 1 := by
+    cases e with
+    | pow b w' =>
+      have hs := (native_batch_pow (zkAsym 1 8) b w').mp he
+      rcases hs with ⟨hb, _, r, _, hw⟩ | ⟨hb, _, hw⟩
+      · subst hw; simp at heq; obtain ⟨h1, _⟩ := heq; subst h1; rw [hb]; decide
+      · subst hw; simp at heq; obtain ⟨h1, _⟩ := heq; omega
+    | _ => simp at heq
+  exact key
+
 end P3R.Witness.C01
